@@ -191,6 +191,38 @@ example :
     (absR b2.topics.rroot).map retOf = [([[97]], ⟨[97], 0, [3]⟩)] := by
   decide
 
+/-! ### stored messages survive all other traffic -/
+
+/-- "No matter what traffic happened since": an event that carries no
+application message into the broker (CONNECT, SUBSCRIBE, UNSUBSCRIBE, acks,
+pings, the in-process Subscribe/Unsubscribe) leaves the retained trie exactly
+as it is; and the fan-out part of a publish does not touch it either - after
+`onPublish` the store is what the retain step made of it. -/
+theorem C08_retained_untouched (b : B) (hinv : Inv b) :
+    (∀ e : Ev, carriesNoMessage e = true → (step b e).1.topics.rroot = b.topics.rroot) ∧
+    (∀ m : Msg, (onPublish b m).1.topics = (retainStep b m).1.topics) :=
+  ⟨fun e he => step_rroot b hinv e he, fun m => onPublish_topics b m⟩
+
+/-- "... or retained updates": a PUBLISH on one topic (retained or not, empty or
+not) leaves the messages stored for all other topics as they are. -/
+theorem C08_other_topics_untouched_partial (b : B) (m : Msg) (hinv : Inv b)
+    (hg : good m.p.topic = true) (hn : validName m.p.topic = true) :
+    ((absR (onPublish b m).1.topics.rroot).filter (fun e => !(e.1 == split m.p.topic))).Perm
+      ((absR b.topics.rroot).filter (fun e => !(e.1 == split m.p.topic))) := by
+  rw [onPublish_topics]
+  obtain ⟨_, h0, h1, h2, _⟩ := C08_retain_step_partial b m hinv.rwf hg hn
+  cases hr : m.p.retain with
+  | false => rw [h0 hr]
+  | true =>
+    by_cases hp : m.p.payload = []
+    · have := (h1 hr hp).filter (fun e => !(e.1 == split m.p.topic))
+      rw [List.filter_filter] at this
+      simpa using this
+    · obtain ⟨r, _, _, _, _, hperm⟩ := h2 hr hp
+      have := hperm.filter (fun e => !(e.1 == split m.p.topic))
+      rw [List.filter_append, List.filter_filter] at this
+      simpa using this
+
 /-! ### (h) a new subscription immediately receives exactly the matching retained messages -/
 
 /-- The SUBSCRIBE step without any hypothesis on the filters: after the SUBACK
